@@ -487,6 +487,11 @@ def replay(pid, path):
     print("replayed case: %s" % json.dumps(c)[:800])
     print("observed: %s" % json.dumps(to_jsonable(o))[:800])
     if f:
+        key = mod.classify(c, o, f, False) if hasattr(mod, "classify") else None
+        if key and (pid, key) in known_findings():
+            kf = known_findings()[(pid, key)]
+            print("KNOWN-FINDING: property=%s %s: %s" % (pid, kf["site"], kf["what"]))
+            return 0
         print("property fails: %s" % f)
         print("VIOLATION property=%s replay=%s" % (pid, path))
         return 1
